@@ -54,7 +54,15 @@ func C09(c *core.Ctx) error {
 	}
 	allMocks := []string{P("a") + "|IA|MockIA", P("a") + "|IA2|MockIA2", P("b") + "|IB|MockIB", P("c") + "|IC|MockIC"}
 	var scns []c09scn
+	type mutFn func(root core.M, pcs, ics []core.M, files map[string]string, s *c09scn)
+	type stored struct {
+		id      string
+		invalid bool
+		mut     mutFn
+	}
+	var storedMuts []stored
 	add := func(id string, invalid bool, mut func(root core.M, pcs, ics []core.M, files map[string]string, s *c09scn)) {
+		storedMuts = append(storedMuts, stored{id, invalid, mut})
 		root, pcs, ics := baseCfg()
 		files := baseFiles()
 		s := c09scn{id: id, invalid: invalid, expect: allMocks}
@@ -230,6 +238,29 @@ func C09(c *core.Ctx) error {
 	}
 	scns = append(scns, c09scn{id: "go.mod without a module directive", files: baseFiles(), cfg: func() core.M { r, _, _ := baseCfg(); return r }(), gomod: "go 1.23\n", invalid: true})
 
+	// thorough: pairs of faults in two different packages (still a diagnostic, still no crash)
+	if !core.Quick(c.Tier) {
+		n := len(storedMuts)
+		for i := 0; i < n; i++ {
+			for j := 0; j < n; j++ {
+				a, b := storedMuts[i], storedMuts[j]
+				if !a.invalid || !strings.HasSuffix(a.id, "(package a)") {
+					continue
+				}
+				if !(b.invalid && strings.HasSuffix(b.id, "(package b)")) {
+					continue
+				}
+				root, pcs, ics := baseCfg()
+				files := baseFiles()
+				sc := c09scn{id: "pair: " + a.id + " + " + b.id, invalid: true}
+				b.mut(root, pcs, ics, files, &sc)
+				a.mut(root, pcs, ics, files, &sc)
+				sc.invalid = true
+				sc.cfg, sc.files = root, files
+				scns = append(scns, sc)
+			}
+		}
+	}
 	var mu sync.Mutex
 	done := 0
 	classes := map[string]int{}
